@@ -72,7 +72,7 @@ def check(run, driver):
     tabs, notes = gen_tables.generate()
     d = tabs.get("discovery")
     if not d:
-        run.oblige("ObC07 generator construction in discover_network (AST)", False, "untranslatable " + "; ".join(notes))
+        run.extra["translator"] = "UNTRANSLATABLE (" + "; ".join(notes) + ") -- the source no longer has a shape the AST translator recognises; the table obligation is not established on this run and the property is decided by the correspondence alone (DESIGN.md §2.4)"
     else:
         run.oblige("ObC07 a fresh generator is created inside discover_network from an integer literal (AST)", isinstance(d["seed"], int), repr(d["seed"]))
         run.oblige("ObC07 no global np.random.<fn> / random.<fn> call and no module-level generator in the discovery module (AST)",
@@ -89,8 +89,11 @@ def check(run, driver):
         run.case("stream", case, True, sample=case)
         if "error" in o:
             run.prop_fail("valid request raises", case, {"clause": "total"}, o["error"]); continue
-        if o["other_rng"]:
-            run.prop_fail("discovery reads the global NumPy generator or uses the generator beyond permutation draws", case, {"clause": "globals"}, o["other_rng"][:5])
+        glob = [k for k in o["other_rng"] if k.startswith("global:")]
+        if glob:
+            run.prop_fail("discovery reads the global NumPy generator", case, {"clause": "globals"}, glob[:5])
+        elif o["other_rng"]:
+            run.corr_fail("stream", case, "only permutation draws from the function's own generator", o["other_rng"][:5], "generator used in a way the model does not know")
         if len(o["seeds"]) < 1 or not isinstance(o["seeds"][0], (int, np.integer)):
             run.prop_fail("the generator is not created from a fixed integer seed inside the call", case, {"clause": "seed"}, repr(o["seeds"][:3]))
         else:
@@ -119,6 +122,10 @@ def check(run, driver):
             data = make_data(info, rng, n, T)
             kw = dict(method=method, information=info, max_lag=int(rng.integers(1, 3)), n_shuffles=8, alpha_forward=0.1, alpha_backward=0.1, k_means=3)
             probes.append((info, method, data, kw))
+    # count data under the LASSO selection (cheap, and always has edges whose numbers can be compared)
+    for rep in range(3 if thorough else 2):
+        data = make_data("poisson", rng, 3, 40)
+        probes.append(("poisson", "lasso", data, dict(method="lasso", information="poisson", max_lag=2, n_shuffles=4, alpha_forward=0.1, alpha_backward=0.1)))
     # neighbour estimator on integer-valued data (exact ties), all methods
     for method in (METHODS if thorough else METHODS[::2]):
         data = rng.poisson(2.0, size=(36, 2)).astype(float)
@@ -158,6 +165,16 @@ def check(run, driver):
 
     actions = [lambda r: np.random.seed(int(r.integers(0, 1000))), lambda r: random.seed(int(r.integers(0, 1000))), lambda r: np.random.rand(int(r.integers(1, 9))),
                lambda r: random.random(), act_other, act_plot, act_other_counts]
+    # warm-up history at estimator level: many evaluations on OTHER data (memo tables keyed on rounded numbers would now be populated)
+    from causationentropy.core.information.conditional_mutual_information import conditional_mutual_information as _cmi
+    from causationentropy.core.information.entropy import poisson_entropy as _pe
+    for _ in range(400 if thorough else 150):
+        Nw = 16
+        Wc = rng.poisson(float(rng.uniform(0.5, 5)), size=(Nw, 3)).astype(float)
+        _cmi(Wc[:, :1], Wc[:, 1:2], Wc[:, 2:] if rng.random() < 0.5 else None, method="poisson")
+        Wn = rng.standard_normal((Nw, 3))
+        _cmi(Wn[:, :1], Wn[:, 1:2], Wn[:, 2:] if rng.random() < 0.5 else None, method=["gaussian", "knn", "kde"][int(rng.integers(0, 3))], k=2)
+        _pe(np.round(rng.uniform(0, 6, size=int(rng.integers(1, 4))), int(rng.integers(2, 6))))
     for pi, (info, method, data, kw) in enumerate(probes):
         first = None
         hist_len = int(rng.integers(3, 9))
@@ -206,11 +223,11 @@ def check(run, driver):
         info = ESTIMATORS[it % 5]
         if not thorough and info in ("geometric_knn",) and it >= 5:
             continue
-        method = METHODS[(it // 5 + it) % 4]
+        method = METHODS[(it // 5 + it) % 4] if it >= 5 else "lasso"    # (LASSO selection: every estimator gets edges to put numbers on)
         n = int(rng.integers(2, 4)); T = 28 if info in ("geometric_knn", "poisson") else int(rng.integers(28, 45))
         data = make_data(info, rng, n, T)
         if info == "poisson" or it % 4 == 0 or it < 5:
-            data = np.round(data * (1 if info == "poisson" else 4))   # integer-valued numbers: int and float presentations exist
+            data = np.round(data * (1 if info == "poisson" else (50 if it < 5 else 4)))   # integer-valued numbers: int and float presentations exist
         kw = dict(method=method, information=info, max_lag=int(rng.integers(1, 3)), n_shuffles=6, alpha_forward=0.1, alpha_backward=0.1, k_means=3)
         labels = [f"col{c}" for c in range(n)]
         pres = {"ndarray-C": np.ascontiguousarray(data), "ndarray-F": np.asfortranarray(data), "nested-lists": data.tolist(),
